@@ -822,7 +822,11 @@ def expiry_sweep(u: U):
         td = L["to_del"]
         return [("tracked", Or(heap.tracked_in, any(x is k for x in td)))]
 
-    u.loop(FN_EXP, 1, inv=inv, havoc=lambda L: None, keep=("to_del",))
+    # the sweep loop is the `while` over the heap, wherever it sits among the loops of the current text (the compaction's
+    # comprehension, if it lives in this function, is not reached under the assumption above)
+    sweep = [l["index"] for l in u.fn_infos[FN_EXP].loops if l["kind"] == "while"]
+    u.check("C16.expiry.sweep_loop_found", len(sweep) == 1, f"one while loop over the heap: {u.fn_infos[FN_EXP].loops}")
+    u.loop(FN_EXP, sweep[0] if sweep else 0, inv=inv, havoc=lambda L: None, keep=("to_del",))
     out = u.call(f, jar)
     u.check("C16.expiry.total", out.ok, repr(out))
     if not out.ok:
@@ -856,6 +860,11 @@ def expiry_schedule(u: U):
             pushes.append(e)
 
     jar = mk_jar(u, fields={"_expire_heap": [], "_expirations": _Expirations()})
+    object.__setattr__(jar, "_o_real", (MOD, "CookieJar"))  # a helper split off _expire_cookie is followed
+    u.module_globals[MOD] = {"heapq": _heapq}
+    from pyvc import LoopSpec
+
+    u.default_loop_spec = LoopSpec(unroll=True, bound=4)
     f = u.load(MOD, "CookieJar._expire_cookie", globals={"heapq": _heapq})
     out = u.call(f, jar, when, d, p, "n")
     u.check("C16.expiry.schedule.total", out.ok, repr(out))
@@ -1064,3 +1073,108 @@ def persist_load(u: U):
 
 def tbool_or_false(x):
     return x if x is not None else False
+
+
+# ---------------------------------------------------------------------------------------------------------------
+# 7. the expiry table and the expiry heap stay in step, compaction included (wherever it is performed)
+#
+# I16.exp: for every key k in _expirations, the entry (_expirations[k], k) is on the heap.  The sweep finds a cookie's
+# deadline only through that entry, so losing it means the cookie is sent for ever.  The units below run the real
+# functions on small concrete jars (0..2 other cookies, 0..3 stale heap entries, deadlines symbolic reals) with the
+# compaction threshold _MIN_SCHEDULED_COOKIE_EXPIRATION lowered (a tuning constant: the code is the same for every value),
+# so that the compaction branch is taken whichever function hosts it.
+
+
+def _small_jar_state(u: U, n_other_max=2, n_stale_max=3):
+    keys = [("d", f"/p{i}", "n") for i in range(u.choose(n_other_max + 1, "other_cookies"))]
+    exps = {k: u.real(f"deadline[{i}]") for i, k in enumerate(keys)}
+    heap = [(exps[k], k) for k in keys]
+    for j in range(u.choose(n_stale_max + 1, "stale_entries")):
+        # a stale entry: an earlier deadline of some key (or of a key that is gone)
+        owner = keys[u.choose(len(keys), f"stale[{j}].owner")] if keys and u.choose(2, f"stale[{j}].of_live_key") else ("d", "/gone", "n")
+        heap.append((u.real(f"stale[{j}].when"), owner))
+    return keys, exps, heap
+
+
+def _all_loops_unrolled(u, fn_id, bound=12):
+    for l in u.fn_infos[fn_id].loops:
+        u.loop(fn_id, l["index"], unroll=True, bound=bound)
+
+
+def _on_heap(heap, when, key):
+    return Or(*[And(e[1] == key, tbool_eq(e[0], when)) for e in heap]) if heap else False
+
+
+@unit("C16", "expiry.schedule.table_and_heap_in_step", functions=[f"{MOD}:CookieJar._expire_cookie"])
+def expiry_schedule_in_step(u: U):
+    """_expire_cookie on a small concrete jar, compaction threshold lowered: afterwards EVERY key of the expiry table
+    - the one just scheduled included - has its current deadline on the heap (I16.exp), whether or not the heap was
+    compacted on the way and whichever function performs the compaction"""
+    import heapq as real_heapq
+
+    keys, exps, heap = _small_jar_state(u)
+    when = u.real("when")
+    target = ("d", "/p0", "n") if u.choose(2, "reschedule_existing") and keys else ("d", "/new", "n")
+
+    class _heapq:
+        heappush = staticmethod(lambda h, e: h.append(e))
+        heapify = staticmethod(lambda h: None)
+        heappop = staticmethod(real_heapq.heappop)
+
+    thr = u.choose(2, "compaction_threshold")  # 0 or 1: far below the real 100, so that compaction can trigger
+    jar = mk_jar(u, fields={"_expire_heap": heap, "_expirations": dict(exps)})
+    object.__setattr__(jar, "_o_real", (MOD, "CookieJar"))
+    u.module_globals[MOD] = {"heapq": _heapq, "_MIN_SCHEDULED_COOKIE_EXPIRATION": thr}
+    f = u.load(MOD, "CookieJar._expire_cookie")
+    # every loop met here (in this function or in a helper it was split into) runs over a small concrete container
+    from pyvc import LoopSpec
+
+    u.default_loop_spec = LoopSpec(unroll=True, bound=12)
+    out = u.call(f, jar, when, target[0], target[1], target[2])
+    u.check("C16.expiry.in_step.total", out.ok, repr(out))
+    if not out.ok:
+        return
+    fs = fields(jar)
+    table, h = fs["_expirations"], list(fs["_expire_heap"])
+    u.check("C16.expiry.in_step.deadline_recorded", target in table and tbool_eq(table[target], when), "the table holds the new deadline")
+    for k in list(table):
+        u.check("C16.expiry.in_step.every_deadline_on_heap", _on_heap(h, table[k], k),
+                "every cookie with a deadline has that deadline on the expiry heap after scheduling (the sweep finds it "
+                "only there): a compaction must not drop the entry that was just pushed, nor any other live one",
+                witness={"key": k, "heap_len": len(h), "threshold": thr})
+
+
+@unit("C16", "expiry.sweep.table_and_heap_in_step", functions=[f"{MOD}:CookieJar._do_expiration"])
+def expiry_sweep_in_step(u: U):
+    """_do_expiration on a small concrete jar, compaction threshold lowered: every cookie whose deadline has passed is
+    handed to _delete_cookies, every other one keeps its heap entry (I16.exp for the survivors)"""
+    import heapq as real_heapq
+
+    keys, exps, heap = _small_jar_state(u, n_other_max=2, n_stale_max=2)
+    now = u.real("now")
+    real_heapq.heapify(heap)  # the jar's heap satisfies the heap property (ASSUMED for heapq's own functions)
+    deleted = []
+
+    class _time:
+        time = staticmethod(lambda: now)
+
+    thr = u.choose(2, "compaction_threshold")
+    jar = mk_jar(u, fields={"_expire_heap": heap, "_expirations": dict(exps)},
+                 methods={"_delete_cookies": lambda self, td: deleted.extend(td)})
+    object.__setattr__(jar, "_o_real", (MOD, "CookieJar"))
+    u.module_globals[MOD] = {"time": _time, "_MIN_SCHEDULED_COOKIE_EXPIRATION": thr}
+    f = u.load(MOD, "CookieJar._do_expiration")
+    from pyvc import LoopSpec
+
+    u.default_loop_spec = LoopSpec(unroll=True, bound=12)
+    out = u.call(f, jar)
+    u.check("C16.expiry.sweep_in_step.total", out.ok, repr(out))
+    if not out.ok:
+        return
+    h = list(fields(jar)["_expire_heap"])
+    for k in keys:
+        w = exps[k]
+        u.check("C16.expiry.sweep_in_step.expired_deleted", Implies(w <= now, k in deleted),
+                "a cookie whose deadline has passed is handed to _delete_cookies by the sweep", witness={"key": k})
+        u.check("C16.expiry.sweep_in_step.live_kept_on_heap", Implies(w > now, And(k not in deleted, _on_heap(h, w, k))),
+                "a cookie whose deadline lies ahead is kept, and its deadline stays on the heap", witness={"key": k})
